@@ -401,7 +401,7 @@ where
     /// Linear Interpolation without extrapolation. As x axis the index to the data will be used.
     /// On multidimensional data interpolation happens along the first axis.
     pub fn new(data: ArrayBase<Sd, D>) -> Self {
-        let len = data.shape()[0];
+        let len = data.shape().first().copied().unwrap_or(0);
         Interp1DBuilder {
             x: Array::from_iter((0..len).map(|n| {
                 cast(n).unwrap_or_else(|| {
